@@ -89,7 +89,7 @@ def ignorable (ws : List String) : Bool :=
   match ws with
   | [] => true
   | w :: rest =>
-      (w.length ≥ 2 && w != "ps") || w == "S" || w == "X" || w == "G" || w == "Q" || (w == "R" && rest.length == 1)
+      (w.length ≥ 2 && w != "ps") || w == "S" || w == "X" || w == "G" || w == "Q" || w == "D" || (w == "R" && rest.length == 1)
 
 /- the ledger is passed on its own (not inside a record that stays alive) so that the hash map
 is updated in place -/
